@@ -390,6 +390,9 @@ func checkOutlines(b *harness.B, c *chaingen.Chain, cs consensus.State, blk type
 }
 
 func run(b *harness.B) {
+	if b.Batch == 0 {
+		directedLeafHashAmbiguity(b)
+	}
 	nNets := b.Pick(3, 8)
 	blocks := b.Pick(100, 350)
 	for i := 0; i < nNets; i++ {
